@@ -158,5 +158,13 @@ def run(facts, tier):
     from props import c08
     c08.r08_3(facts, res)
     c08.r08_4(facts, res)
+    # both tools read documents and replacement fragments through XmlDocument::new: a start tag may carry a:id next to b:id
+    from props import c02
+    ok, why = c02.wfc_unique_att(facts)
+    res.rule("C17-12", instances=1)
+    res.oblige(1, ok)
+    if not ok:
+        f_ = facts.fn("xml_info::XmlElement::node")
+        res.add(Finding("C17-12", "Unique Att Spec", "XmlElement::node: %s (xq / xe refuse or accept input the grammar decides otherwise)" % why, f_["file"], f_["line"], {}))
     res.functions_analysed = sum(1 for f in facts.fns.values() if f["crate"] in TOOLS)
     return res
